@@ -414,6 +414,119 @@ fn lockstep_automata(a: &Automaton, b: &Automaton, extra: &[u32]) -> Result<Hash
     Ok(map)
 }
 
+/// combined partition, representative alphabet, compiled successor table and edges of one automaton
+/// must all describe the same transition structure as next(); false = a failure was recorded
+fn check_views(name: &str, x: &Automaton, reps: &[u32], o: &mut Outcome) -> bool {
+    let cp = x.combined_char_partition();
+    let ranges: Vec<(u32, u32)> = (0..cp.len()).map(|i| cp.get(i)).collect();
+    let class_of = |c: u32| -> Option<usize> { ranges.iter().position(|&(lo, hi)| lo <= c && c <= hi) };
+    // characters of one combined class have identical successors in every state
+    let probes = automaton_probe_chars(x, &reps);
+    let mut by_class: BTreeMap<Option<usize>, Vec<u32>> = BTreeMap::new();
+    for &c in &probes {
+        by_class.entry(class_of(c)).or_default().push(c);
+    }
+    for (cls, chars) in &by_class {
+        for s in x.states() {
+            o.evals += 1;
+            let first = x.next(s, chars[0]).id();
+            for &c in &chars[1..] {
+                if x.next(s, c).id() != first {
+                    o.fail(
+                        "C14/combined-class-not-uniform",
+                        format!("{}: {} and {} are in the same class {:?} of combined_char_partition but state {} sends them to {} and {}", name, show_char(chars[0]), show_char(c), cls, s.id(), first, x.next(s, c).id()),
+                    );
+                    return false;
+                }
+            }
+        }
+    }
+    // pick_alphabet: one character of every class, each class once
+    let alpha = x.pick_alphabet();
+    let mut hit: Vec<Option<usize>> = alpha.iter().map(|&c| if c > MAX { Some(usize::MAX) } else { class_of(c) }).collect();
+    hit.sort();
+    let covered: u64 = ranges.iter().map(|&(lo, hi)| (hi - lo) as u64 + 1).sum();
+    let mut exp: Vec<Option<usize>> = Vec::new();
+    if covered < MAX as u64 + 1 {
+        exp.push(None);
+    }
+    exp.extend((0..ranges.len()).map(Some));
+    o.evals += 1;
+    if hit != exp {
+        o.fail("C14/alphabet-does-not-hit-every-class-once", format!("{}: pick_alphabet() = {:x?} for classes {:x?} (complement {})", name, alpha, ranges, if covered < MAX as u64 + 1 { "non-empty" } else { "empty" }));
+        return false;
+    }
+    // compile_successors
+    let table = match catch(|| x.compile_successors()) {
+        Ok(tb) => tb,
+        Err(msg) => {
+            o.fail("C14/compile_successors-panics", format!("{}: compile_successors panicked: {}", name, msg));
+            return false;
+        }
+    };
+    if table.alphabet_size() != alpha.len() || table.num_states() != x.num_states() {
+        o.fail("C14/table-dimensions", format!("{}: table is {} x {}, automaton has {} states and alphabet {}", name, table.num_states(), table.alphabet_size(), x.num_states(), alpha.len()));
+        return false;
+    }
+    let mut shared_base = false;
+    for s in x.states() {
+        for (i, &c) in alpha.iter().enumerate() {
+            o.evals += 1;
+            let exp = x.next(s, c).id() as u32;
+            let got = match catch(|| table.eval(s.id() as u32, i as u32)) {
+                Ok(g) => g,
+                Err(msg) => {
+                    o.fail("C14/table-eval-panics", format!("{}: eval({}, {}) panicked: {}", name, s.id(), i, msg));
+                    return false;
+                }
+            };
+            if got != exp {
+                o.fail("C14/table-differs-from-next", format!("{}: compile_successors().eval({}, {}) = {} but next(state {}, {}) = {}", name, s.id(), i, got, s.id(), show_char(c), exp));
+                return false;
+            }
+        }
+        if s.has_default_successor() && s.num_successors() > 0 {
+            shared_base = true;
+        }
+    }
+    if shared_base && x.num_states() >= 3 {
+        o.tag("table-with-sparse-rows");
+    }
+    // edges
+    for s in x.states() {
+        o.evals += 1;
+        let edges: Vec<(ClassId, usize)> = x.edges(s).map(|(cid, st)| (cid, st.id())).collect();
+        let nr = s.char_ranges().count();
+        let exp_len = nr + s.has_default_successor() as usize;
+        if edges.len() != exp_len {
+            o.fail("C14/edges", format!("{}: state {} has {} ranges, default {:?}, but edges() yields {} items", name, s.id(), nr, s.default_successor(), edges.len()));
+            return false;
+        }
+        let starts: Vec<u32> = s.char_ranges().map(|r| r.pick()).collect();
+        for (cid, target) in &edges {
+            let exp = match cid {
+                ClassId::Interval(i) if *i < nr => x.next(s, starts[*i]).id(),
+                ClassId::Complement if s.has_default_successor() => s.default_successor().unwrap(),
+                _ => usize::MAX,
+            };
+            if exp != *target || x.class_next(s, *cid).id() != *target {
+                o.fail("C14/edges", format!("{}: edge ({}, {}) of state {} disagrees with next/class_next", name, cid, target, s.id()));
+                return false;
+            }
+        }
+        // the default edge is the successor of every uncovered character
+        if let Some(d) = s.default_successor() {
+            for c in crate::bisim::state_probe_chars(s, &[]) {
+                if s.class_of_char(c) == ClassId::Complement && x.next(s, c).id() != d {
+                    o.fail("C14/edges", format!("{}: uncovered character {} of state {} does not go to the default successor", name, show_char(c), s.id()));
+                    return false;
+                }
+            }
+        }
+    }
+    true
+}
+
 pub fn run_c14(tape: &[u8], cx: &Cx) -> Outcome {
     let mut t = Tape::new(tape);
     let mut o = Outcome::default();
@@ -482,112 +595,8 @@ pub fn run_c14(tape: &[u8], cx: &Cx) -> Outcome {
 
     // --- combined partition, alphabet, compiled successor table (on the unpruned automaton: unreachable states count too)
     for (name, x) in [("automaton", &a), ("pruned automaton", &b)] {
-        let cp = x.combined_char_partition();
-        let ranges: Vec<(u32, u32)> = (0..cp.len()).map(|i| cp.get(i)).collect();
-        let class_of = |c: u32| -> Option<usize> { ranges.iter().position(|&(lo, hi)| lo <= c && c <= hi) };
-        // characters of one combined class have identical successors in every state
-        let probes = automaton_probe_chars(x, &reps);
-        let mut by_class: BTreeMap<Option<usize>, Vec<u32>> = BTreeMap::new();
-        for &c in &probes {
-            by_class.entry(class_of(c)).or_default().push(c);
-        }
-        for (cls, chars) in &by_class {
-            for s in x.states() {
-                o.evals += 1;
-                let first = x.next(s, chars[0]).id();
-                for &c in &chars[1..] {
-                    if x.next(s, c).id() != first {
-                        o.fail(
-                            "C14/combined-class-not-uniform",
-                            format!("{}: {} and {} are in the same class {:?} of combined_char_partition but state {} sends them to {} and {}", name, show_char(chars[0]), show_char(c), cls, s.id(), first, x.next(s, c).id()),
-                        );
-                        return o;
-                    }
-                }
-            }
-        }
-        // pick_alphabet: one character of every class, each class once
-        let alpha = x.pick_alphabet();
-        let mut hit: Vec<Option<usize>> = alpha.iter().map(|&c| if c > MAX { Some(usize::MAX) } else { class_of(c) }).collect();
-        hit.sort();
-        let covered: u64 = ranges.iter().map(|&(lo, hi)| (hi - lo) as u64 + 1).sum();
-        let mut exp: Vec<Option<usize>> = Vec::new();
-        if covered < MAX as u64 + 1 {
-            exp.push(None);
-        }
-        exp.extend((0..ranges.len()).map(Some));
-        o.evals += 1;
-        if hit != exp {
-            o.fail("C14/alphabet-does-not-hit-every-class-once", format!("{}: pick_alphabet() = {:x?} for classes {:x?} (complement {})", name, alpha, ranges, if covered < MAX as u64 + 1 { "non-empty" } else { "empty" }));
+        if !check_views(name, x, &reps, &mut o) {
             return o;
-        }
-        // compile_successors
-        let table = match catch(|| x.compile_successors()) {
-            Ok(tb) => tb,
-            Err(msg) => {
-                o.fail("C14/compile_successors-panics", format!("{}: compile_successors panicked: {}", name, msg));
-                return o;
-            }
-        };
-        if table.alphabet_size() != alpha.len() || table.num_states() != x.num_states() {
-            o.fail("C14/table-dimensions", format!("{}: table is {} x {}, automaton has {} states and alphabet {}", name, table.num_states(), table.alphabet_size(), x.num_states(), alpha.len()));
-            return o;
-        }
-        let mut shared_base = false;
-        for s in x.states() {
-            for (i, &c) in alpha.iter().enumerate() {
-                o.evals += 1;
-                let exp = x.next(s, c).id() as u32;
-                let got = match catch(|| table.eval(s.id() as u32, i as u32)) {
-                    Ok(g) => g,
-                    Err(msg) => {
-                        o.fail("C14/table-eval-panics", format!("{}: eval({}, {}) panicked: {}", name, s.id(), i, msg));
-                        return o;
-                    }
-                };
-                if got != exp {
-                    o.fail("C14/table-differs-from-next", format!("{}: compile_successors().eval({}, {}) = {} but next(state {}, {}) = {}", name, s.id(), i, got, s.id(), show_char(c), exp));
-                    return o;
-                }
-            }
-            if s.has_default_successor() && s.num_successors() > 0 {
-                shared_base = true;
-            }
-        }
-        if shared_base && x.num_states() >= 3 {
-            o.tag("table-with-sparse-rows");
-        }
-        // edges
-        for s in x.states() {
-            o.evals += 1;
-            let edges: Vec<(ClassId, usize)> = x.edges(s).map(|(cid, st)| (cid, st.id())).collect();
-            let nr = s.char_ranges().count();
-            let exp_len = nr + s.has_default_successor() as usize;
-            if edges.len() != exp_len {
-                o.fail("C14/edges", format!("{}: state {} has {} ranges, default {:?}, but edges() yields {} items", name, s.id(), nr, s.default_successor(), edges.len()));
-                return o;
-            }
-            let starts: Vec<u32> = s.char_ranges().map(|r| r.pick()).collect();
-            for (cid, target) in &edges {
-                let exp = match cid {
-                    ClassId::Interval(i) if *i < nr => x.next(s, starts[*i]).id(),
-                    ClassId::Complement if s.has_default_successor() => s.default_successor().unwrap(),
-                    _ => usize::MAX,
-                };
-                if exp != *target || x.class_next(s, *cid).id() != *target {
-                    o.fail("C14/edges", format!("{}: edge ({}, {}) of state {} disagrees with next/class_next", name, cid, target, s.id()));
-                    return o;
-                }
-            }
-            // the default edge is the successor of every uncovered character
-            if let Some(d) = s.default_successor() {
-                for c in crate::bisim::state_probe_chars(s, &[]) {
-                    if s.class_of_char(c) == ClassId::Complement && x.next(s, c).id() != d {
-                        o.fail("C14/edges", format!("{}: uncovered character {} of state {} does not go to the default successor", name, show_char(c), s.id()));
-                        return o;
-                    }
-                }
-            }
         }
     }
     // --- sequences of pruning and minimisation on one automaton: after every step the language,
@@ -599,6 +608,12 @@ pub fn run_c14(tape: &[u8], cx: &Cx) -> Outcome {
         let mut trace = String::new();
         for _ in 0..nops {
             let op_min = t.flag();
+            // look at the automaton's derived views first (whatever they cache must be refreshed by the operation)
+            if t.flag() {
+                let _ = c.pick_alphabet();
+                let _ = catch(|| c.compile_successors());
+                let _ = c.combined_char_partition();
+            }
             let r = if op_min { catch(|| c.minimize()) } else { catch(|| c.remove_unreachable_states()) };
             trace.push_str(if op_min { "minimize; " } else { "remove_unreachable_states; " });
             if let Err(msg) = r {
@@ -608,6 +623,9 @@ pub fn run_c14(tape: &[u8], cx: &Cx) -> Outcome {
             did_min |= op_min;
             did_prune |= !op_min;
             check_counts(&c, &format!("after [{}]", trace), "C14/counts-inconsistent", &mut o);
+            if !check_views(&format!("after [{}]", trace), &c, &reps, &mut o) {
+                return o;
+            }
             match product_automaton(&case.atoms, &case.dfa, case.dfa.start, &c, c.initial_state()) {
                 ProductResult::Equal(p) => o.evals += p as u64,
                 ProductResult::Differ { word, .. } => {
@@ -632,19 +650,6 @@ pub fn run_c14(tape: &[u8], cx: &Cx) -> Outcome {
             if reach.len() == c.num_states() && c.num_states() != index {
                 o.fail("C14/operation-sequence-changes-language", format!("after [{}] all {} states are reachable and minimised, but the minimal complete DFA has {}", trace, c.num_states(), index));
                 return o;
-            }
-        }
-        // the compiled table of the final automaton
-        let alpha = c.pick_alphabet();
-        if let Ok(table) = catch(|| c.compile_successors()) {
-            for st in c.states() {
-                for (i, &ch) in alpha.iter().enumerate() {
-                    o.evals += 1;
-                    if table.eval(st.id() as u32, i as u32) != c.next(st, ch).id() as u32 {
-                        o.fail("C14/table-differs-from-next", format!("after [{}]: eval({}, {}) differs from next", trace, st.id(), i));
-                        return o;
-                    }
-                }
             }
         }
     }
